@@ -86,18 +86,27 @@ pub fn after_op(
         let dbv = cur.users.get(&u).map(|x| (x.0, x.2));
         if mem != dbv {
             g.rep.fail("C07", "memory_disk_differ", &format!("user u{u}: gatekeeper memory {mem:?} vs users table {dbv:?} (slots, expiry)"));
+            g.rep.fail("C03", "state_not_durable", &format!("user u{u}: the gatekeeper holds {mem:?}, the users table {dbv:?} (slots, expiry): a restart now would change what the tower has told this user"));
         }
     }
     // ---------------------------------------------------------------- C15: a refused request changes nothing
     if matches!(op, HOp::Reg { .. } | HOp::Add { .. } | HOp::Get { .. } | HOp::Sub { .. }) && matches!(out, Outcome::MaxSlots | Outcome::Error { .. }) {
+        // (an authentication or subscription error must come before any effect: C06)
+        let auth = matches!(out, Outcome::Error { msg, .. } if { let m = msg.to_lowercase(); m.contains("expired") || m.contains("authentication") || m.contains("user not found") || m.contains("subscription") });
         if !same_db(&prev, &cur) {
             g.rep.fail("C15", "refused_request_changed_state", &format!("{} was refused ({out:?}) but the database changed", crate::towerhist::op_name(op)));
+            if auth {
+                g.rep.fail("C06", "refused_request_changed_state", &format!("{} was refused with an authentication / subscription error ({out:?}) but the database changed", crate::towerhist::op_name(op)));
+            }
         }
         for u in g.sys.users_seen.clone() {
             let mem = g.sys.mem_user(u);
             let was = prev.users.get(&u).map(|x| (x.0, x.2));
             if mem != was {
                 g.rep.fail("C15", "refused_request_changed_state", &format!("{} was refused ({out:?}) but the gatekeeper's record of u{u} went from {was:?} to {mem:?} (slots, expiry)", crate::towerhist::op_name(op)));
+                if auth {
+                    g.rep.fail("C06", "refused_request_changed_state", &format!("{} was refused with an authentication / subscription error ({out:?}) but the record of u{u} went from {was:?} to {mem:?}", crate::towerhist::op_name(op)));
+                }
             }
         }
     }
@@ -180,6 +189,11 @@ pub fn after_op(
                         let tipn = g.sys.chain.len();
                         let in_index = g.sys.chain[tipn.saturating_sub(100)..].iter().any(|b| b.3.contains(&p));
                         let answered = sent_ok(p) || in_mempool(p) || in_index || g.mon.sent_since_block.contains(&p) || has_tracker;
+                        // C08: a receipt for data that is neither held nor responded to needs a cause: the node refused the penalty
+                        // (now, or since the last block: the carrier's memo)
+                        if in_kept && !has_row && !has_tracker && !(is_rejected(verdict(p)) && (sent_ok(p) || g.mon.sent_since_block.contains(&p))) {
+                            g.rep.fail("C08", "receipt_for_data_dropped_without_cause", &format!("a receipt was issued, the blob decrypts and the node does not refuse penalty t{} (verdict {:?}, asked now: {}), yet the appointment is neither held nor responded to", p * 16, verdict(p), sent_ok(p)));
+                        }
                         if !answered {
                             let fp = if in_kept { "late_appointment_not_answered" } else { "late_appointment_missed_after_reorg_deficit" };
                             g.rep.fail("C01", fp, &format!("dispute t{} is in the last 6 blocks, penalty t{} neither submitted nor tracked", loc * 16, p * 16));
@@ -413,6 +427,7 @@ pub fn after_op(
                 let own = if due { slots_of(a.0.len()) as i64 } else { 0 };
                 if refunded != own + others_completed {
                     g.rep.fail("C04", "refund_mismatch", &format!("u{}: balance changed by {refunded} at block {height}, completions are worth {}", k.1, own + others_completed));
+                    g.rep.fail("C07", "refund_not_for_a_completion", &format!("u{}: balance changed by {refunded} at block {height}, the trackers that reached 100 confirmations are worth {} (only irrevocably resolved trackers are refunded)", k.1, own + others_completed));
                 }
             }
         }
